@@ -680,3 +680,190 @@ PLANS["C15"] = generic(
     "recording functions as arguments (incl. inside a projection). Non-trivial = modelled custom invocation or rejection; distinct by (history, call).",
     n_quick=4_800, n_thorough=480_000, min_evaluations=300_000,
 )
+
+
+# ---------------------------------------------------------------------------
+# C16: thread safety under `sync` — compile-time obligations, result-comparing
+# stress, first-use races with injected delay, Miri, ThreadSanitizer
+
+import random
+
+
+def _cargo(args, target, toolchain=None, rustflags=None, extra_env=None, timeout=3600):
+    cmd = ["cargo"] + (["+" + toolchain] if toolchain else []) + args
+    env = dict(o.ENV)
+    env["CARGO_TARGET_DIR"] = os.path.join(o.WORK, target)
+    if rustflags:
+        env["RUSTFLAGS"] = rustflags
+    if extra_env:
+        env.update(extra_env)
+    return subprocess.run(cmd, cwd=o.HARNESS, env=env, capture_output=True, text=True, timeout=timeout)
+
+
+def _run_json(cmd, env=None, timeout=600):
+    try:
+        r = subprocess.run(cmd, capture_output=True, text=True, env=env or o.ENV, timeout=timeout)
+    except subprocess.TimeoutExpired:
+        return None, "watchdog", ""
+    out = None
+    for line in r.stdout.splitlines():
+        if line.startswith("{"):
+            try:
+                out = json.loads(line)
+            except ValueError:
+                pass
+    return out, r.returncode, r.stderr
+
+
+def c16_plan(pid, tier, seed, t0):
+    rnd = random.Random(seed)
+    rundir = os.path.join(o.WORK, "run", "%d-c16" % os.getpid())
+    os.makedirs(rundir, exist_ok=True)
+    merged = o.merge([])
+    obs = merged["observed"]
+    viol = merged["violations"]
+
+    def violation(sig, witness):
+        viol.append({"signature": sig, "witness": witness})
+        merged["violations_total"] += 1
+
+    tools = {}
+    with o.Lock():
+        o.sync_snapshot()
+        # 1. compile-time obligations
+        r = _cargo(["build", "--offline", "--profile", "chk", "-p", "sendsync"], "target-sync")
+        merged["evaluations"] += 1
+        if r.returncode != 0:
+            lib = _cargo(["build", "--offline", "--profile", "chk", "-p", "conc"], "target-sync")
+            text = r.stderr
+            if ("Send" in text or "Sync" in text or "cannot be sent" in text or "cannot be shared" in text) :
+                violation("C16/not-send-sync", {"compiler_output": text[-3000:], "library_itself_builds": lib.returncode == 0})
+            else:
+                raise o.HarnessError("sendsync failed to build for another reason:\n" + text[-3000:])
+        else:
+            obs["send_sync_obligations_compiled"] = 9
+        # 2. native stress binary
+        r = _cargo(["build", "--offline", "--profile", "chk", "-p", "conc"], "target-sync")
+        if r.returncode != 0:
+            if viol:
+                # library no longer supports the threaded workload at all: already reported
+                cfg = {"rule": "see DESIGN C16", "min_evaluations": 1, "assumptions": COMMON_ASSUMPTIONS}
+                merged["distinct"].update([1, 2])
+                return o.conclude(pid, tier, seed, merged, cfg, t0)
+            raise o.HarnessError("conc failed to build:\n" + r.stderr[-3000:])
+        conc = o.stage_binary(os.path.join(o.WORK, "target-sync", "chk", "conc"), rundir, "conc")
+        # 3. Miri over the small workload, many seeds (uses the snapshot: keep the lock)
+        nseeds = 8 if tier == "quick" else 64
+        tm = time.time()
+        mr = _cargo(["miri", "run", "--offline", "-p", "conc", "--", "small", str(seed), "6", "6"], "target-miri", toolchain="nightly",
+                    extra_env={"MIRIFLAGS": "-Zmiri-many-seeds=0..%d -Zmiri-disable-isolation" % nseeds}, timeout=5400)
+        tools["miri_s"] = round(time.time() - tm, 1)
+        # 4. ThreadSanitizer build
+        tt = time.time()
+        tb = _cargo(["build", "--offline", "-Zbuild-std", "--target", "x86_64-unknown-linux-gnu", "-p", "conc", "--profile", "chk"], "target-tsan",
+                    toolchain="nightly", rustflags="-Zsanitizer=thread")
+        tools["tsan_build_s"] = round(time.time() - tt, 1)
+        tsan = None
+        if tb.returncode == 0:
+            tsan = o.stage_binary(os.path.join(o.WORK, "target-tsan", "x86_64-unknown-linux-gnu", "chk", "conc"), rundir, "conc-tsan")
+    # Miri verdicts
+    miri_runs = [json.loads(l) for l in mr.stdout.splitlines() if l.startswith("{")]
+    err = mr.stderr
+    if "Undefined Behavior" in err or "data race" in err.lower() or "Data race" in err:
+        i = err.find("error:")
+        violation("C16/miri-report", {"report": err[i:i + 3000], "seeds": nseeds})
+    elif mr.returncode != 0 or not miri_runs:
+        merged["inconclusive"].append("Miri did not complete (exit %s): %s" % (mr.returncode, err[-400:].replace("\n", " ")))
+    sigs = set()
+    for run in miri_runs:
+        merged["evaluations"] += run["first"]["probes"] + run["stress"]["searches"]
+        sigs.add("miri:" + run["stress"]["interleaving"])
+        for part, sig in (("first", "C16/first-use-race/divergent-or-missing-builtin"), ("stress", "C16/divergent-result")):
+            probs = run[part].get("problems") or run[part].get("mismatches")
+            if probs:
+                violation(sig, {"under": "miri", "details": probs[:3]})
+            if run[part].get("panics"):
+                violation("C16/panic-in-thread", {"under": "miri", "mode": part})
+    obs["miri_seeds_completed"] = len(miri_runs)
+
+    # native stress + first-use races, 16 processes at a time
+    jobs = []
+    stress_runs = 24 if tier == "quick" else 600
+    ops = 1500 if tier == "quick" else 5000
+    for k in range(stress_runs):
+        jobs.append(("stress", [conc, "stress", str([2, 4, 16][k % 3]), str(ops), str(seed * 1000 + k)]))
+    first_runs = 200 if tier == "quick" else 10000
+    for k in range(first_runs):
+        spins = rnd.choice([0, 0, 1000, 10000, 100000, 1000000, 3000000])
+        jobs.append(("first", [conc, "first", str(rnd.choice([2, 4, 8, 16])), str(spins), str(seed * 1000 + k)]))
+    if tsan:
+        env_t = dict(o.ENV, TSAN_OPTIONS="halt_on_error=1 exitcode=66")
+        for k in range(10 if tier == "quick" else 60):
+            jobs.append(("tsan-stress", [tsan, "stress", str([4, 8][k % 2]), "400", str(seed * 77 + k)]))
+        for k in range(20 if tier == "quick" else 200):
+            jobs.append(("tsan-first", [tsan, "first", str(rnd.choice([4, 8])), str(rnd.choice([0, 10000, 300000])), str(k)]))
+    else:
+        merged["inconclusive"].append("ThreadSanitizer build failed: " + tb.stderr[-300:].replace("\n", " "))
+        env_t = None
+    arrived_hist = {}
+    inits = {}
+    with ThreadPoolExecutor(max_workers=o.NCPU) as ex:
+        futs = [(kind, cmd, ex.submit(_run_json, cmd, env_t if kind.startswith("tsan") else None)) for kind, cmd in jobs]
+        for kind, cmd, f in futs:
+            out, rc, stderr = f.result()
+            if rc == "watchdog":
+                merged["inconclusive"].append("%s: wall-clock watchdog" % " ".join(cmd[1:]))
+                continue
+            if kind.startswith("tsan") and (rc == 66 or "ThreadSanitizer" in stderr):
+                i = stderr.find("WARNING: ThreadSanitizer")
+                violation("C16/tsan-report", {"cmd": " ".join(cmd[1:]), "report": stderr[i:i + 2500]})
+                continue
+            if out is None or rc != 0:
+                cause = _death_cause(rc if isinstance(rc, int) else 1, stderr)
+                violation("C16/process-died/%s" % cause, {"cmd": " ".join(cmd[1:]), "stderr": stderr[-800:]})
+                continue
+            obs["runs/%s" % kind] = obs.get("runs/%s" % kind, 0) + 1
+            if out["mode"] == "stress":
+                merged["evaluations"] += out["searches"]
+                sigs.add(kind + ":" + out["interleaving"])
+                if out["mismatches"]:
+                    violation("C16/divergent-result", {"cmd": " ".join(cmd[1:]), "details": out["mismatches"][:3]})
+                if out["panics"]:
+                    violation("C16/panic-in-thread", {"cmd": " ".join(cmd[1:])})
+                if out["inputs_mutated"]:
+                    violation("C16/shared-input-mutated", {"cmd": " ".join(cmd[1:]), "inputs": out["inputs_mutated"]})
+            else:
+                merged["evaluations"] += out["probes"]
+                key = "%d/%d" % (out["arrived_before_init"], out["threads"])
+                arrived_hist[key] = arrived_hist.get(key, 0) + 1
+                inits[str(out["runtime_initialisations"])] = inits.get(str(out["runtime_initialisations"]), 0) + 1
+                sigs.add("first:%s:%s" % (key, out["spins"]))
+                if out["problems"]:
+                    violation("C16/first-use-race/divergent-or-missing-builtin", {"cmd": " ".join(cmd[1:]), "details": out["problems"][:3]})
+                if out["panics"]:
+                    violation("C16/panic-in-thread", {"cmd": " ".join(cmd[1:])})
+    merged["distinct"].update(hash(s) & 0xFFFFFFFFFFFF for s in sigs)
+    merged["samples"] = [{"stress_interleaving_signatures(first 48 ticketed operations by thread)": sorted(s for s in sigs if s.startswith("stress"))[:4]},
+                         {"first_use_runs(arrived_before_init/threads -> runs)": arrived_hist}]
+    if len([s for s in sigs if s.startswith("stress")]) < 3:
+        merged["inconclusive"].append("low schedule diversity: fewer than 3 distinct interleaving signatures in the native stress")
+    cfg = {
+        "rule": "four observers. (1) a crate of Send+Sync obligations for Expression, Runtime, Variable, Rcvar, Ast, JmespathError, Box<dyn Function> must "
+        "compile against the sync build. (2) native stress: 2/4/16 threads share Arc'd compiled expressions and Arc'd input values, start on a barrier and "
+        "perform mixed compile (through the shared default runtime) / clone / search / drop operations; every result is compared with the sequential "
+        "result computed beforehand; shared inputs must print unchanged. (3) first-use race: the process is re-executed; all threads' first library "
+        "call is a compile released by one barrier while the verif-hooks delay point widens the window between Runtime::new() and "
+        "register_builtin_functions(); every thread then calls all 26 built-ins and must agree with the sequential results. (4) the same workload "
+        "(reduced) under Miri with %d scheduler seeds (data-race detector, borrow model) and under ThreadSanitizer (-Zbuild-std). Non-trivial / "
+        "distinct = distinct interleaving signatures (order in which threads took the first ticketed operations; for first-use runs: how many threads "
+        "had arrived when the initialiser ran x delay)." % nseeds,
+        "min_evaluations": 20_000,
+        "assumptions": COMMON_ASSUMPTIONS + ["only the schedules the OS, Miri's seeds and the injected delays produced were observed",
+                                              "init count / winner statistics are evidence of schedule diversity, never a verdict"],
+    }
+    extra_cov = {"first_use_arrived_before_init_histogram": arrived_hist, "runtime_initialisation_counts": inits, "tool_seconds": tools,
+                 "distinct_interleaving_signatures": len(sigs), "miri_seeds": nseeds, "tsan_available": bool(tsan)}
+    return o.conclude(pid, tier, seed, merged, cfg, t0, extra_cov)
+
+
+PLANS["C16"] = c16_plan
